@@ -38,6 +38,18 @@ var litContexts = []struct{ name, tmpl string }{
 	{"array-element", "v = [0, %s, 0][1]"},
 	{"call-argument", "v = (function (a, b) { return b })(0, %s)"},
 	{"operand", "v = [%s + \"\", typeof %s][0]"},
+	// the literal ends a statement and the next statement begins with a bracket: the third output is printed WITHOUT
+	// semicolons, so the printer has to put one back right behind the literal
+	{"before-bracket-statement", "v = %s;\n[v][0]"},
+}
+
+// prettyFor: the pretty configuration a literal case is printed with (default options; no semicolons for the
+// before-bracket-statement position).
+func prettyFor(lc litCase) Cfg {
+	if strings.HasPrefix(lc.cat, "before-bracket-statement/") {
+		return CfgPrettyTabN
+	}
+	return CfgPretty
 }
 
 // checkLiterals: one batch. Each literal is compiled inside `v = <lit>` (compact and pretty); the source
@@ -86,10 +98,10 @@ func checkLiterals(t *fw.T, lits []litCase, label string) {
 				if (t.Index/16)%2 == 1 {
 					// long-lived Compiler values: one literal after the other through the same compilers
 					c = CfgCompact.CompileReused(po.Prog).Code
-					p = CfgPretty.CompileReused(po.Prog).Code
+					p = prettyFor(lc).CompileReused(po.Prog).Code
 				} else {
 					c = CfgCompact.Compile(po.Prog).Code
-					p = CfgPretty.Compile(po.Prog).Code
+					p = prettyFor(lc).Compile(po.Prog).Code
 				}
 			}
 		})
